@@ -23,7 +23,11 @@ RULE = ("unit level: JSON documents (all scalar kinds incl. big ints, dyadic flo
         "the parent's uid, some without uid, some not maps; random (target, patch) pairs with nulls for merge-patch.  "
         "flow level: real ResourceFunctions (inline resource, ResourceTemplate through the cache, 0-2 overlays, create "
         "overlay; directives in each) x owned x owner namespace equal/different/None x namespaced/cluster-scoped x "
-        "create pass / patch pass (drifted or matching live object, 0-3 pre-existing references).  A case is non-trivial "
+        "create pass / patch pass (drifted or matching live object, 0-3 pre-existing references); directives coming from "
+        "exactly one origin (template only / overlayRef return only / inline only / create overlay only); SEQUENCES of 2-4 "
+        "reconciles in one process sharing koreo's caches (a ResourceTemplate that already names the managed object, used by "
+        "an owning function and then by non-owning / other-namespace / other-parent functions; create, delete, create "
+        "again), with a snapshot check of the cached template after every reconcile.  A case is non-trivial "
         "when its input contains a directive key, a pre-existing reference, or is a flow; distinct by content")
 ASSUMPTIONS = [
     "the target does not itself specify metadata.ownerReferences or the last-applied annotation key (the theorems "
@@ -622,7 +626,23 @@ def gen_unit_cases(ctx: Ctx):
 
 OWNER_REF = {"apiVersion": "example.dev/v1", "kind": "Parent", "name": "parent", "uid": "uid-parent",
              "blockOwnerDeletion": True, "controller": False}
+OWNER_REF2 = {"apiVersion": "example.dev/v1", "kind": "Parent", "name": "parent2", "uid": "uid-parent-2",
+              "blockOwnerDeletion": True, "controller": False}
+OWNERS = {"P1": OWNER_REF, "P2": OWNER_REF2}
 FLOW_TEXTS = ["a", "v1", "café", "日本", "x y", "finalizers", "blue"]
+
+
+def steps_of(scn):
+    """The reconciles of a scenario, run in ONE process against one cluster without resetting koreo's
+    caches in between.  op 'create': the object is removed from the cluster first; op 'patch': the stored
+    object gets `live_refs` (None = key removed) and optionally drifts, then is reconciled."""
+    if scn.get("seq"):
+        return scn["seq"]
+    out = [{"op": "create", "owned": scn["owned"], "owner_ns": scn["owner_ns"], "owner": "P1"}]
+    if scn["mode"] == "patch":
+        out.append({"op": "patch", "owned": scn["owned"], "owner_ns": scn["owner_ns"], "owner": "P1",
+                    "live_refs": scn["live_refs"], "drift": scn["drift"]})
+    return out
 
 
 def gen_flow_value(rng, depth, p_dir):
@@ -700,6 +720,15 @@ def gen_live_refs(rng):
     return out
 
 
+def _strip_for_gen(v):
+    """generator helper (hand-written, independent of the code under test): the document without directive entries"""
+    if isinstance(v, dict):
+        return {k: _strip_for_gen(x) for k, x in v.items() if k not in DIRECTIVES}
+    if isinstance(v, list):
+        return [_strip_for_gen(x) for x in v]
+    return v
+
+
 def gen_scenario(rng, idx):
     namespaced = rng.random() < 0.7
     ns = "ns1" if namespaced else None
@@ -727,6 +756,19 @@ def gen_scenario(rng, idx):
         "drift": rng.random() < 0.6,
         "malformed": malformed,
     }
+    if scn["source"] == "template":
+        scn["identity_in_template"] = rng.random() < 0.5
+    if malformed is None and rng.random() < 0.3:
+        scn["seq"] = gen_sequence(rng, ns)
+    if rng.random() < 0.25:
+        # directives from ONE origin only: wipe them from everything else
+        keep = rng.choice(["doc", "overlay0", "create"])
+        wipe = lambda d: _strip_for_gen(d)
+        if keep != "doc":
+            scn["doc"] = wipe(scn["doc"])
+        scn["overlays"] = [o if (keep == "overlay0" and i == 0) else wipe(o) for i, o in enumerate(scn["overlays"])]
+        if scn["create_overlay"] is not None and keep != "create":
+            scn["create_overlay"] = wipe(scn["create_overlay"])
     if malformed == "annotations-not-map":
         scn["doc"].setdefault("metadata", {})["annotations"] = "oops"
     elif malformed == "own-owner-refs":
@@ -739,6 +781,90 @@ def gen_scenario(rng, idx):
             md["annotations"] = {}
         md["annotations"][ANNOT] = "mine"
     return scn
+
+
+def directive_sources(scn):
+    """where the target's directives come from: inline resource, template, inline overlay, vf overlay, create overlay"""
+    out = []
+    if find_directive(scn["doc"]):
+        out.append("template" if scn["source"] == "template" else "inline")
+    via = scn.get("overlay_via_vf") or []
+    for i, o in enumerate(scn["overlays"]):
+        if find_directive(o):
+            out.append("vf-overlay" if (i < len(via) and via[i]) else "inline-overlay")
+    if scn["create_overlay"] is not None and find_directive(scn["create_overlay"]):
+        out.append("create-overlay")
+    return sorted(set(out))
+
+
+OTHER_REF = {"apiVersion": "v1", "kind": "Other", "name": "o", "uid": "u1"}
+
+
+def sequence_scenarios():
+    """one process, one cached ResourceTemplate (which already names the managed object), several
+    reconciles by functions with different ownership: an owning create first, then creates / patches
+    that must NOT carry that parent; and create -> delete -> create with a different parent."""
+    plain = {"metadata": {"labels": {"app": "a"}}, "spec": {"n": 3, "mode": "fast"}}
+    with_dir = {"metadata": {"labels": {"app": "a"}, "x-koreo-compare-as-set": ["finalizers"]},
+                "spec": {"items": [{"name": "a", "x-koreo-compare-as-map": {"k": ["name"]}}], "n": 3}}
+    A = {"op": "create", "owned": True, "owner_ns": "ns1", "owner": "P1"}
+    laters = [
+        [{"op": "create", "owned": False, "owner_ns": "ns1", "owner": "P1"}],
+        [{"op": "create", "owned": True, "owner_ns": "other", "owner": "P1"}],
+        [{"op": "create", "owned": True, "owner_ns": None, "owner": "P1"}],
+        [{"op": "create", "owned": True, "owner_ns": "ns1", "owner": "P2"}],
+        [{"op": "create", "owned": False, "owner_ns": "ns1", "owner": "P2"},
+         {"op": "patch", "owned": False, "owner_ns": "ns1", "owner": "P2", "live_refs": [OTHER_REF], "drift": True}],
+        [{"op": "patch", "owned": False, "owner_ns": "ns1", "owner": "P1", "live_refs": [OTHER_REF], "drift": True}],
+        [{"op": "patch", "owned": True, "owner_ns": "other", "owner": "P1", "live_refs": [OTHER_REF], "drift": True}],
+        [{"op": "patch", "owned": True, "owner_ns": "ns1", "owner": "P2", "live_refs": [OTHER_REF], "drift": False},
+         {"op": "create", "owned": False, "owner_ns": "ns1", "owner": "P1"}],
+    ]
+    for doc in (plain, with_dir):
+        for ident in (True, False):
+            for later in laters:
+                yield {"kind": "flow", "source": "template", "identity_in_template": ident,
+                       "doc": copy.deepcopy(doc), "overlays": [], "overlay_via_vf": [False, False],
+                       "create_overlay": None, "owned": True, "namespaced": True, "ns": "ns1", "owner_ns": "ns1",
+                       "mode": "create", "live_refs": None, "drift": False, "malformed": None,
+                       "seq": copy.deepcopy([A] + later)}
+
+
+def directive_origin_scenarios():
+    """the target's directives come from exactly ONE place, and the function's own spec mentions none
+    when that place is the cached ResourceTemplate or an overlayRef ValueFunction's return."""
+    clean = {"metadata": {"labels": {"app": "a"}}, "spec": {"n": 3}}
+    dirty = {"metadata": {"labels": {"app": "a"}, "x-koreo-compare-as-set": ["finalizers"]},
+             "spec": {"rules": [{"name": "a", "x-koreo-compare-as-map": {"k": ["name"]},
+                                 "nested": {"x-koreo-compare-last-applied": ["v"], "v": 1}}], "n": 3}}
+    dirty_overlay = {"spec": {"extra": [{"q": [1, 2], "x-koreo-compare-as-set": ["q"]}]}}
+    base = {"kind": "flow", "owned": True, "namespaced": True, "ns": "ns1", "owner_ns": "ns1", "mode": "patch",
+            "live_refs": [OTHER_REF], "drift": True, "malformed": None, "create_overlay": None}
+    yield {**base, "source": "template", "doc": copy.deepcopy(dirty), "overlays": [], "overlay_via_vf": [False, False]}
+    yield {**base, "source": "template", "identity_in_template": True, "doc": copy.deepcopy(dirty), "overlays": [],
+           "overlay_via_vf": [False, False]}
+    for src in ("inline", "template"):
+        yield {**base, "source": src, "doc": copy.deepcopy(clean), "overlays": [copy.deepcopy(dirty_overlay)],
+               "overlay_via_vf": [True, False]}
+        yield {**base, "source": src, "doc": copy.deepcopy(clean), "overlays": [copy.deepcopy(dirty_overlay)],
+               "overlay_via_vf": [False, False]}
+        yield {**base, "source": src, "doc": copy.deepcopy(clean), "overlays": [],
+               "overlay_via_vf": [False, False], "create_overlay": copy.deepcopy(dirty_overlay)}
+    yield {**base, "source": "inline", "doc": copy.deepcopy(dirty), "overlays": [], "overlay_via_vf": [False, False]}
+
+
+def gen_sequence(rng, ns):
+    """random plan: starts with an owning same-namespace create more often than not."""
+    def cfg():
+        return {"owned": rng.random() < 0.5, "owner_ns": rng.choice([ns, ns, "other", None]),
+                "owner": rng.choice(["P1", "P1", "P2"])}
+    plan = [{"op": "create", **({"owned": True, "owner_ns": ns, "owner": "P1"} if rng.random() < 0.7 else cfg())}]
+    for _ in range(rng.choice([1, 2, 2, 3])):
+        if rng.random() < 0.5:
+            plan.append({"op": "create", **cfg()})
+        else:
+            plan.append({"op": "patch", **cfg(), "live_refs": gen_live_refs(rng), "drift": rng.random() < 0.6})
+    return plan
 
 
 def exhaustive_scenarios():
@@ -780,29 +906,31 @@ class Capture:
         o_val = R._validate_owner_reffed
         o_match = R.validate_match
 
-        def prep(obj):
+        # the wrappers pass every extra positional / keyword argument through untouched, so a change of
+        # the helpers' signatures in the code under test does not turn into a harness artefact
+        def prep(obj, *a, **kw):
             arg = copy.deepcopy(to_py(obj))
-            out = o_prep(obj)
+            out = o_prep(obj, *a, **kw)
             ev.append(("prepare", arg, copy.deepcopy(to_py(out))))
             return out
 
-        def upd(view, ref):
+        def upd(view, *a, **kw):
             arg = copy.deepcopy(to_py(view))
-            out = o_upd(view, ref)
+            out = o_upd(view, *a, **kw)
             ev.append(("updated", arg, out))
             return out
 
-        def val(view, ref):
+        def val(view, *a, **kw):
             arg = copy.deepcopy(to_py(view))
-            out = o_val(view, ref)
+            out = o_val(view, *a, **kw)
             ev.append(("validate", arg, out))
             return out
 
-        def match(target, actual, last_applied_value=None, **kw):
+        def match(target, actual, *pa, **kw):
             t = copy.deepcopy(to_py(target))
             a = copy.deepcopy(to_py(actual))
             try:
-                out = o_match(target=target, actual=actual, last_applied_value=last_applied_value, **kw)
+                out = o_match(target, actual, *pa, **kw)
             except Exception:
                 ev.append(("match", t, a, None))     # the comparison itself crashed (C05's business)
                 raise
@@ -826,10 +954,10 @@ class Capture:
         return out
 
 
-def build_spec(scn):
+def build_spec(scn, owned=None):
     kind = "Widget" if scn["namespaced"] else "Gadget"
     api = {"apiVersion": "example.dev/v1", "kind": kind, "plural": kind.lower() + "s", "name": "w1",
-           "namespaced": scn["namespaced"], "owned": scn["owned"]}
+           "namespaced": scn["namespaced"], "owned": scn["owned"] if owned is None else owned}
     if scn["namespaced"]:
         api["namespace"] = scn["ns"]
     spec = {"apiConfig": api, "update": {"patch": {"delay": 7}}}
@@ -848,15 +976,38 @@ def build_spec(scn):
     return spec, kind
 
 
-async def _prepare_fn(scn):
+def template_snapshot():
+    """plain copy of the cached ResourceTemplate's template (None if there is none)."""
+    import drivers
+    from koreo import cache
+    from koreo.resource_template.structure import ResourceTemplate
+    t = cache.get_resource_from_cache(resource_class=ResourceTemplate, cache_key="tpl")
+    if t is None or not hasattr(t, "template"):
+        return None
+    return copy.deepcopy(drivers.to_py(t.template))
+
+
+async def _prepare_fn(scn, owned=None, name="fn", install=True):
     import drivers
     from koreo import cache
     from koreo.resource_template.prepare import prepare_resource_template
     from koreo.resource_template.structure import ResourceTemplate
-    spec, kind = build_spec(scn)
+    spec, kind = build_spec(scn, owned)
+    if not install:
+        p = await drivers.prepare_rf(name, spec)
+        fn, err = drivers.unwrap_prepared(p)
+        return fn, err, kind
     if scn["source"] == "template":
         tpl = copy.deepcopy(scn["doc"])
         tpl = {"apiVersion": "example.dev/v1", "kind": kind, **tpl}
+        if scn.get("identity_in_template"):
+            # a "singleton" template: it already names the managed object, so the forced
+            # kind/name/namespace overlay changes nothing
+            md = {"name": "w1"}
+            if scn["ns"] is not None:
+                md["namespace"] = scn["ns"]
+            md.update(tpl.get("metadata") or {})
+            tpl["metadata"] = md
         await cache.prepare_and_cache(resource_class=ResourceTemplate, preparer=prepare_resource_template,
                                       metadata={"name": "tpl", "resourceVersion": "1"},
                                       spec={"template": tpl})
@@ -868,7 +1019,7 @@ async def _prepare_fn(scn):
             await cache.prepare_and_cache(resource_class=ValueFunction, preparer=prepare_value_function,
                                           metadata={"name": f"vf{i}", "resourceVersion": "1"},
                                           spec={"return": copy.deepcopy(o)})
-    p = await drivers.prepare_rf("fn", spec)
+    p = await drivers.prepare_rf(name, spec)
     fn, err = drivers.unwrap_prepared(p)
     return fn, err, kind
 
@@ -891,40 +1042,58 @@ def run_flow(scn, cap: Capture):
 
     async def go():
         drivers.reset_all()
-        fn, err, kind = await _prepare_fn(scn)
-        if fn is None:
-            return {"skip": f"prepare failed: {drivers.canon_outcome(err).get('message')}"}
+        plan = steps_of(scn)
+        fns = {}
+        kind = None
+        for i, st in enumerate(plan):
+            if st["owned"] not in fns:
+                fn, err, kind = await _prepare_fn(scn, owned=st["owned"], name=f"fn-{st['owned']}",
+                                                  install=not fns)
+                if fn is None:
+                    return {"skip": f"prepare failed: {drivers.canon_outcome(err).get('message')}"}
+                fns[st["owned"]] = fn
         plural = kind.lower() + "s"
         key = (plural, scn["ns"], "w1")
         cl = Cluster()
-        owner = (scn["owner_ns"], copy.deepcopy(OWNER_REF))
         steps = []
 
-        async def one(step):
+        async def one(st):
+            cfg = {"owned": st["owned"], "owner_ns": st["owner_ns"], "ns": scn["ns"],
+                   "owner_ref": copy.deepcopy(OWNERS[st.get("owner", "P1")])}
+            owner = (cfg["owner_ns"], copy.deepcopy(cfg["owner_ref"]))
             cap.take()
             n0 = len(cl.calls)
             pre = copy.deepcopy(cl.objects.get(key))
+            tpl_before = template_snapshot()
             raised = None
             outcome = None
             try:
-                r = await drivers.reconcile_rf(fn, {}, cl, owner=owner)
+                r = await drivers.reconcile_rf(fns[st["owned"]], {}, cl, owner=owner)
                 outcome = drivers.canon_outcome(r.outcome)["cls"]
             except Exception as e:  # noqa: BLE001
                 raised = exn_name(e) or f"other:{type(e).__name__}"
-            steps.append({"step": step, "pre": pre, "events": cap.take(),
+            tpl_after = template_snapshot()
+            steps.append({"step": st["op"], "cfg": cfg, "pre": pre, "events": cap.take(),
                           "calls": [{k: copy.deepcopy(c.get(k)) for k in ("method", "endpoint", "namespace", "name", "body")}
                                     for c in cl.calls[n0:]],
-                          "post": copy.deepcopy(cl.objects.get(key)), "raised": raised, "outcome": outcome})
+                          "post": copy.deepcopy(cl.objects.get(key)), "raised": raised, "outcome": outcome,
+                          "template_mutated": (None if json.dumps(tpl_before) == json.dumps(tpl_after)
+                                               else {"before": tpl_before, "after": tpl_after})})
 
-        await one("create")
-        if scn["mode"] == "patch" and cl.objects.get(key) is not None:
+        for st in plan:
+            if st["op"] == "create":
+                cl.objects.pop(key, None)
+                await one(st)
+                continue
+            if cl.objects.get(key) is None:
+                continue                      # nothing to patch (the create did not happen)
             live = cl.objects[key]
             md = live.setdefault("metadata", {})
-            if scn["live_refs"] is None:
+            if st.get("live_refs") is None:
                 md.pop("ownerReferences", None)
             else:
-                md["ownerReferences"] = copy.deepcopy(scn["live_refs"])
-            if scn["drift"]:
+                md["ownerReferences"] = copy.deepcopy(st["live_refs"])
+            if st.get("drift"):
                 live.setdefault("spec", {})
                 if isinstance(live["spec"], dict):
                     live["spec"]["drifted"] = "yes"
@@ -937,25 +1106,31 @@ def run_flow(scn, cap: Capture):
                 if isinstance(lab, dict) and lab:
                     k0 = next(iter(lab))
                     lab[k0] = str(lab[k0]) + "-changed"
-            await one("patch")
+            await one(st)
         return {"steps": steps, "kind": kind}
 
     return vloop.run(go())[0]
 
 
-def own_condition(scn):
+def own_condition(cfg):
     """True / False, or None when the text does not decide (parent and object both cluster-scoped)."""
-    if not scn["owned"]:
+    if not cfg["owned"]:
         return False
-    if scn["owner_ns"] is None and scn["ns"] is None:
+    if cfg["owner_ns"] is None and cfg["ns"] is None:
         return None
-    return scn["owner_ns"] == scn["ns"]
+    return cfg["owner_ns"] == cfg["ns"]
 
 
 def flow_oracle(scn, step):
     """List of (signature, what) failures of the property on one reconcile step."""
     fails = []
+    cfg = step["cfg"]
+    OWNER_REF = cfg["owner_ref"]          # the parent of THIS reconcile
     uid = OWNER_REF["uid"]
+    if step.get("template_mutated"):
+        fails.append(("cached ResourceTemplate was modified by a reconcile",
+                      "the template held in koreo's cache differs after the reconcile: every later payload built "
+                      "from it (owner references, annotation) inherits what this reconcile wrote into it"))
     muts = [c for c in step["calls"] if c["method"] in ("POST", "PATCH")]
     hyp_refs = scn.get("malformed") != "own-owner-refs"
     hyp_ann = scn.get("malformed") != "own-annotation"
@@ -968,7 +1143,7 @@ def flow_oracle(scn, step):
             why = annotation_problem(c["body"]) if isinstance(c["body"], dict) else "body is not an object"
             if why:
                 fails.append((f"{m}: {why}", why))
-    should = own_condition(scn)
+    should = own_condition(cfg)
     for c in muts:
         if c["method"] == "POST" and hyp_refs and should is not None:
             carries = has_uid(refs_of(c["body"]), uid)
@@ -1008,6 +1183,9 @@ def flow_terms(scn, res):
     kind = res["kind"]
     cns = lambda s: copt(s, cstr)
     for st in res["steps"]:
+        cfg = st["cfg"]
+        OWNER_REF = cfg["owner_ref"]
+        scn = cfg                      # owned / owner_ns / ns of this step
         ev = st["events"]
         preps = [e for e in ev if e[0] == "prepare"]
         upds = [e for e in ev if e[0] == "updated"]
@@ -1080,6 +1258,9 @@ def shrink_scenario(scn, still_fails):
         mutate(cand)
         if cand != cur and attempt(cand):
             cur = cand
+    if cur.get("seq"):
+        from common import shrink_list
+        cur["seq"] = shrink_list(cur["seq"], lambda q: bool(q) and attempt({**cur, "seq": q}))
     cur["doc"] = shrink_json(cur["doc"], lambda d: attempt({**cur, "doc": d}))
     if cur["overlays"]:
         cur["overlays"] = shrink_json(cur["overlays"], lambda o: attempt({**cur, "overlays": o}))
@@ -1155,8 +1336,16 @@ def check_flow(ctx: Ctx, scn, cap, cases, terms, shrink=True):
               f"{'(vf)' if any((scn.get('overlay_via_vf') or [False, False])[:len(scn['overlays'])]) else ''}")
     if scn["create_overlay"] is not None:
         ctx.count("flow:create-overlay")
-    ctx.count(f"flow:own={scn['owned']},owner_ns={scn['owner_ns']},ns={scn['ns']}")
-    ctx.count(f"flow:mode:{scn['mode']}")
+    plan = steps_of(scn)
+    for stp in plan:
+        ctx.count(f"flow:own={stp['owned']},owner_ns={stp['owner_ns']},ns={scn['ns']}")
+    ctx.count("flow:steps:" + ">".join(stp["op"] for stp in plan) if len(plan) <= 4 else "flow:steps:5+")
+    if scn.get("seq"):
+        ctx.count("flow:sequence(shared caches)")
+    if scn.get("identity_in_template") and scn["source"] == "template":
+        ctx.count("flow:template-already-names-the-object")
+    where = directive_sources(scn)
+    ctx.count("flow:directives-from:" + ("+".join(where) or "nowhere"))
     if scn.get("malformed"):
         ctx.count(f"flow:malformed:{scn['malformed']}")
     for st in res["steps"]:
@@ -1231,6 +1420,10 @@ def run(ctx: Ctx):
         for case in gen_unit_cases(ctx):
             check_unit(ctx, case, cases, terms)
         for scn in exhaustive_scenarios():
+            check_flow(ctx, scn, cap, fcases, fterms)
+        for scn in directive_origin_scenarios():
+            check_flow(ctx, scn, cap, fcases, fterms)
+        for scn in sequence_scenarios():
             check_flow(ctx, scn, cap, fcases, fterms)
         for i in range(260 if ctx.quick() else 4000):
             check_flow(ctx, gen_scenario(ctx.rng, i), cap, fcases, fterms)
